@@ -414,7 +414,12 @@ impl Area for A {
                     if rng.chance(2, 3) {
                         writeln!(out, "dec {} {}", hexs(&s), hexs(&text)).unwrap()
                     } else {
-                        writeln!(out, "typed {} {} {}", rng.pick(KINDS), hexs(&s), hexs(&text)).unwrap()
+                        // half of the time a class that accepts this entity byte (when there is one)
+                        let mut full = data.clone();
+                        full.resize(NodeId::LENGTH, 0);
+                        let fitting: Vec<&str> = KINDS.iter().copied().filter(|k| kind_accepts(k, &full)).collect();
+                        let kind = if !fitting.is_empty() && rng.chance(1, 2) { *rng.pick(&fitting) } else { *rng.pick(KINDS) };
+                        writeln!(out, "typed {} {} {}", kind, hexs(&s), hexs(&text)).unwrap()
                     }
                 }
                 9..=12 => {
@@ -504,7 +509,7 @@ impl Area for A {
                     node.extend(some_body(rng, 29));
                     let addr = AddressBech32Encoder::new(&net(&enc_suffix)).encode(&node).unwrap_or_else(|_| "resource_sim1".into());
                     let idt = if rng.chance(2, 3) { some_id(rng).to_string() } else { id_text_variants(rng) };
-                    let text = match rng.below(8) {
+                    let text = match rng.below(14) {
                         0 => format!("{}{}", addr, idt),
                         1 => format!("{}:{}:", addr, idt),
                         2 => format!(":{}:{}", addr, idt),
